@@ -113,7 +113,13 @@ def build_traces(path, tier, seed):
         ns, _ = gen.record(rng, n)
         we, _ = gen.record(rng, n)
         theta = float([0.0, 90.0, 180.0, 45.0, 270.0, rng.uniform(-360, 720), rng.uniform(0, 180)][i % 7])
+        if i % 3 == 1:       # integer-count records / lists of ints
+            ns = np.round(ns / (np.max(np.abs(ns)) + 1e-300) * 50).astype(np.int64)
+            we = np.round(we / (np.max(np.abs(we)) + 1e-300) * 50).astype(np.int64)
+            if i % 2:
+                ns, we = ns.tolist(), we.tolist()
         a, b = eqsig.AccSignal(ns, 0.01), eqsig.AccSignal(we, 0.01)
+        ns, we = np.asarray(ns, dtype=float), np.asarray(we, dtype=float)
         out = multiple.combine_at_angle(a, b, theta).values
         out180 = multiple.combine_at_angle(a, b, theta + 180.0).values
         tid += 1
@@ -129,7 +135,11 @@ def build_traces(path, tier, seed):
         off = float([0.0, 30.0, -45.0, 200.0, rng.uniform(-180, 360)][i % 5])
         points = int([2, 3, 7, 10, 100][i % 5]) if tier == "thorough" else int([2, 3, 7, 10][i % 4])
         m = measures[i % 4]
+        if i % 3 == 2:
+            ns = np.round(ns * 40).astype(np.int64)
+            we = np.round(we * 40).astype(np.int64)
         a, b = eqsig.AccSignal(ns, dt), eqsig.AccSignal(we, dt)
+        ns, we = np.asarray(ns, dtype=float), np.asarray(we, dtype=float)
         if m == "pga":
             ang, vals = multiple.compute_rotated(a, b, angle_off_ns=off, parameter="pga", points=points)
         elif m == "pgv":
